@@ -5,10 +5,10 @@ Import ListNotations.
 Open Scope string_scope.
 
 Theorem registry_covers_all_classes :
-  registry_table_ok class_skeletons registry derived_attrs registry_excused = true.
+  registry_table_ok class_skeletons registry derived_attrs registry_excused_load = true.
 Proof. vm_compute. reflexivity. Qed.
 
-Theorem registry_excuses_are_live : registry_excuses_live registry derived_attrs registry_excused = true.
+Theorem registry_excuses_are_live : registry_excuses_live registry derived_attrs registry_excused_load = true.
 Proof. vm_compute. reflexivity. Qed.
 
 Print Assumptions registry_covers_all_classes.
